@@ -131,7 +131,7 @@ def all_small_grids():
 
 
 # ---- tuner runs --------------------------------------------------------------------------------------------------
-def make_table(rng, points, n_trials, style):
+def make_table(rng, points, n_trials, style, scale=1.0):
     table = {}
     base = [rng.choice([-6.0, -2.5, 0.0, 1.0, 3.5, 7.0, 12.0]) for _ in points]
     for p, m in zip(points, base):
@@ -148,7 +148,7 @@ def make_table(rng, points, n_trials, style):
             vals = [1.25] * n_trials
         else:   # negative
             vals = [-abs(m) - rng.random() * 3 for _ in range(n_trials)]
-        table[point_key(p)] = vals
+        table[point_key(p)] = [v * scale for v in vals]
     return table
 
 
@@ -158,12 +158,13 @@ def work_tuner(item, opts):
     n_trials = item["n_trials"]
     minmax = item["minmax"]
     points = expected_points(grid)
-    table = make_table(rng, points, n_trials, item["style"])
+    scale = float(item.get("scale", 1.0))       # the objective's unit: scores of order 1e-300, 1e-13, 1 or 1e9
+    table = make_table(rng, points, n_trials, item["style"], scale)
     wd = tempfile.mkdtemp(prefix="c19.", dir=os.environ.get("PVMON_WORKDIR"))
     out = {"viol": [], "points": len(points), "calls": 0}
 
     def viol(kind, detail):
-        out["viol"].append({"key": {"component": "HyperTuner", "kind": kind}, "detail": f"grid={grid!r} trials={n_trials} {minmax} [{item['style']}]: {detail}"[:500]})
+        out["viol"].append({"key": {"component": "HyperTuner", "kind": kind}, "detail": f"grid={grid!r} trials={n_trials} {minmax} [{item['style']}, scores x {item.get('scale', 1.0)}]: {detail}"[:500]})
     try:
         os.mkdir(os.path.join(wd, "slots"))
         log = os.path.join(wd, "log.jsonl")
@@ -203,9 +204,9 @@ def work_tuner(item, opts):
             viol("best-not-a-grid-point", f"best_parameters = {bp!r}")
             return out
         mbp = means[point_key(bp)]
-        if not math.isclose(mbp, opt, rel_tol=1e-12, abs_tol=1e-12):
+        if not math.isclose(mbp, opt, rel_tol=1e-12, abs_tol=1e-12 * scale):
             viol("best-not-optimal", f"best_parameters = {bp!r} with mean {mbp!r}; optimal mean is {opt!r} (means {means})")
-        elif not math.isclose(float(tuner.best_score), mbp, rel_tol=1e-12, abs_tol=1e-12):
+        elif not math.isclose(float(tuner.best_score), mbp, rel_tol=1e-12, abs_tol=1e-12 * scale):
             viol("best-score", f"best_score = {tuner.best_score!r}, mean of best_parameters = {mbp!r}")
         # resolve()
         n_before = len(calls)
@@ -412,7 +413,8 @@ def check(prop, tier, seed):
         items.append({"seed": f"{seed}/{k}", "grid": g, "n_trials": rng.choice([1, 2, 2, 3, 3, 10, 12]), "minmax": rng.choice(["min", "max"]),
                       "style": rng.choice(["distinct", "distinct", "tied-means", "all-equal", "negative"]),
                       "n_jobs": rng.choice([1, 2, 3, 5]), "mode": rng.choice(["serial", "serial", "thread", "process"]),
-                      "debug": rng.random() < 0.3})
+                      "debug": rng.random() < 0.3,
+                      "scale": random.Random(f"c19scale/{seed}/{k}").choice([1.0, 1.0, 1.0, 1e-13, 1e-300, 1e9])})
     res = runner.run_parallel("pvmon.props.c19", "work_tuner", items, {}, jobs=8, per_item_s=60)
     calls = pts = done = 0
     for it, r in zip(items, res):
